@@ -2,7 +2,7 @@
 # usage: tools/run_all.sh [tier] [ids...]   runs the registered checks sequentially, prints one summary line each
 tier=${1:-quick}; shift
 ids=${@:-$(/venv/bin/python -c "import json;print(' '.join(c['property_id'] for c in json.load(open('/verif/MANIFEST.json'))['checks']))")}
-cd /verif
+cd "$(dirname "$0")/.."
 rc_all=0
 for id in $ids; do
   out=$(./check $id --tier $tier 2>&1); rc=$?
